@@ -342,7 +342,7 @@ func Finish(m Meta, parts []*Partial, aborted []Violation) int {
 		vs := byKey[k]
 		if kf, ok := known[k]; ok {
 			knownHits[k] = len(vs)
-			out = append(out, fmt.Sprintf("KNOWN-FINDING: property=%s %s — %s", m.ID, k, kf.What))
+			out = append(out, fmt.Sprintf("KNOWN-FINDING: property=%s %s - %s", m.ID, firstLine(k), firstLine(kf.What)))
 			continue
 		}
 		nViol++
@@ -353,7 +353,7 @@ func Finish(m Meta, parts []*Partial, aborted []Violation) int {
 			"what": vs[0].What, "replay": vs[0].Replay, "occurrences": len(vs)}
 		b, _ := json.MarshalIndent(doc, "", " ")
 		_ = os.WriteFile(path, b, 0o644)
-		out = append(out, fmt.Sprintf("VIOLATION property=%s replay=%s key=%s :: %s", m.ID, path, k, firstLine(vs[0].What)))
+		out = append(out, fmt.Sprintf("VIOLATION property=%s replay=%s key=%s :: %s", m.ID, path, firstLine(k), firstLine(vs[0].What)))
 	}
 
 	cov := map[string]any{
@@ -436,7 +436,14 @@ func firstLine(s string) string {
 	if len(s) > 300 {
 		s = s[:300]
 	}
-	return s
+	// verdict lines are parsed line by line: keep them printable ASCII
+	b := []byte(s)
+	for i, c := range b {
+		if c < 0x20 || c > 0x7e {
+			b[i] = '?'
+		}
+	}
+	return string(b)
 }
 
 // CaseLog appends one line to this shard's case log with a plain write(2) *before* the case
